@@ -8,7 +8,8 @@ ENTRY = dict(
         theorems=["c11_cover", "c11_groups_built", "c11_total", "c11_compatible", "c11_general_minimal",
                   "c11_mgo_accepts_iff", "c11_mgo_never_crashes", "c11_indices_masks", "c11_cog_refuses_phase",
                   "c11_decode", "c11_members_are_members", "c11_rotation_signs", "c11_register", "c11_suffix",
-                  "c11_measure_ok", "c11_meas_refuses", "c11_expectation", "c11_dummy", "c11_facts"],
+                  "c11_measure_ok", "c11_meas_refuses", "c11_suffix_semantics", "c11_process_outcome", "c11_expectation",
+                  "c11_expectation_circuit", "c11_dummy", "c11_facts"],
         allowed_axioms=[],
         facts=["value_error_sites"],
         harness="c11",
@@ -21,9 +22,13 @@ ENTRY = dict(
                    "mask j is set iff member j acts on pauli_indices[i]; for every outcome word the product of (-1)^bit over the member's support "
                    "equals 1-2*(popcount(word & mask) & 1); H†ZH = +X, SX†ZSX = +Y by exact 2x2 arithmetic over Z[i] (SXdg would give -Y); the "
                    "appended suffix and the three refusal classes; the dummy measurement decodes to +1. The step from the instruction suffix to "
-                   "outcome statistics is NOT proved: c11_expectation (decoded value = expectation value of every member) is conditional on the "
-                   "Born/Heisenberg hypothesis, a Section hypothesis shown satisfiable by exact state-vector arithmetic on a concrete entangled "
-                   "two-qubit state. The model is run against the implementation on ~2100 generated cases per run (groups are also re-read after "
+                   "outcome statistics is NOT proved: c11_expectation and c11_expectation_circuit (decoded value = expectation value of every member) "
+                   "are conditional on the Born/Heisenberg hypothesis, a Section hypothesis shown satisfiable by exact state-vector arithmetic on a "
+                   "concrete entangled two-qubit state (general observables XY, ZX, YY, XI, IY, the all-identity dummy, and XY through "
+                   "qubit_locations [1,0]). c11_expectation_circuit states the hypothesis about the records read off the appended suffix itself "
+                   "(c11_suffix_semantics: with gate ids interpreted as the H/SX matrices the suffix Z-measures rotation_of(letter)^dagger Z "
+                   "rotation_of(letter) on qubit_locations[s] into register bit i) for injective qubit_locations; c11_process_outcome proves the "
+                   "split of the outcome word at the register width. The model is run against the implementation on ~2200 generated cases per run (every one also judged by the independent oracle: contract judge_accepts_clean_case) (groups are also re-read after "
                    "every use as register / measurement circuit / _process_outcome and must still equal the model's immutable result), and the decoded expectation "
                    "values are compared with qiskit Statevector/DensityMatrix values on random entangled preparations (1-4 qubits, some ending in resets) using an independent "
                    "numpy simulator.",
@@ -39,6 +44,12 @@ ENTRY = dict(
             "group_commuting/unique contract: groups are non-empty, partition the unique observables, and are pairwise qubit-wise commuting "
             "(monitored on every case)",
             "gate matrices: H = [[1,1],[1,-1]]/sqrt2, SX = [[1+i,1-i],[1-i,1+i]]/2 (checked against qiskit Operator on every run)",
+            "observations outside the quantifier (neither compared nor judged): _process_outcome with a numpy integer outcome raises "
+            "AttributeError in _outcome_to_int (documented type is int|str); negative qubit_locations are accepted by Qiskit with Python "
+            "indexing semantics; the property text does not demand that the general observable be minimal "
+            "(construct_general_observables may be overridden to measure extra qubits) - c11_general_minimal is a statement about the "
+            "default most_general_observable only and the judge does not enforce it; inplace=True leaves a partially appended suffix "
+            "when a CircuitError occurs mid-loop",
             "the isinstance(obs, Pauli) guard, negative/duplicate qubit_locations semantics beyond what the cases exercise, and quantum "
             "registers named observable_measurements are outside the model",
         ],
